@@ -4,6 +4,7 @@ EXTENDS TraceBase
 W == INSTANCE PacketWriter WITH PS <- 188, rd <- <<>>, buf <- <<>>, calls <- <<>>, n <- 0, res <- "", fa <- 0
 Verdict(e) ==
   IF e.panic # "" THEN "panic"
+  ELSE IF e.raw # 0 THEN "bytes-reached-the-sink-without-a-packet-write"   \* (a packet writer that is an io.Writer itself is still written packet by packet)
   ELSE IF e.op = "write" THEN
        LET x == W!ExpectWrite(e.data, e.fail_at) IN
        IF e.err # x.err THEN "write-result-" \o x.err \o "-expected-got-" \o e.err
